@@ -65,5 +65,7 @@ def reshape(
 
     """
     poly = numpoly.aspolynomial(a)
-    array = numpy.reshape(poly.values, shape=shape, newshape=newshape, order=order)
+    if shape is None:
+        shape = newshape
+    array = numpy.reshape(poly.values, shape, order=order)
     return numpoly.aspolynomial(array, names=poly.indeterminants)
